@@ -223,10 +223,14 @@ def run_rc_shards(exe, prop, seed, cases, shards, max_size, extra_env, timeout, 
         env["VERIF_SCRATCH"] = os.path.join(work, "scratch-%d" % i)
         os.makedirs(env["VERIF_SCRATCH"], exist_ok=True)
         env["RC_PARAMS"] = "seed=%d max_success=%d max_size=%d noshrink=0" % (s + 1, cases, max_size)
+        env["VERIF_HSEED"] = str(s + 1)
+        env["VERIF_CASES"] = str(cases)
+        env["VERIF_SHARD"] = str(i)
+        env["VERIF_REPO"] = REPO
         env.pop("VERIF_REPLAY", None)
         lp = os.path.join(work, "log-%d.txt" % i)
         lf = open(lp, "w")
-        p = subprocess.Popen([exe], env=env, stdout=lf, stderr=subprocess.STDOUT, cwd=env["VERIF_SCRATCH"])
+        p = subprocess.Popen(exe if isinstance(exe, list) else [exe], env=env, stdout=lf, stderr=subprocess.STDOUT, cwd=env["VERIF_SCRATCH"])
         procs.append((p, env, lp, lf, s))
     res = []
     deadline = time.time() + timeout
@@ -259,9 +263,10 @@ def replay_rc(exe, prop, path, extra_env=None, timeout=600):
         env["VERIF_STATS"] = os.path.join(work, "stats.json")
         env["VERIF_FAILCASE"] = os.path.join(work, "fail.json")
         env["VERIF_SCRATCH"] = os.path.join(work, "scratch")
+        env["VERIF_REPO"] = REPO
         os.makedirs(env["VERIF_SCRATCH"])
         try:
-            r = subprocess.run([exe], env=env, stdout=subprocess.PIPE, stderr=subprocess.STDOUT, text=True, timeout=timeout, cwd=env["VERIF_SCRATCH"])
+            r = subprocess.run(exe if isinstance(exe, list) else [exe], env=env, stdout=subprocess.PIPE, stderr=subprocess.STDOUT, text=True, timeout=timeout, cwd=env["VERIF_SCRATCH"])
             return r.returncode, r.stdout
         except subprocess.TimeoutExpired as e:
             return -9, (e.stdout or "") if isinstance(e.stdout, str) else ""
@@ -300,8 +305,14 @@ def rc_check(prop, tier, spec, replay=None):
     """generic flow of a rapidcheck-backed check"""
     t0 = time.time()
     seed = int(os.environ.get("VERIF_SEED", "1") or 1)
-    exe = build_harness(spec["harness"], spec.get("extra_sources", ()), defines=spec.get("defines", ()))
     extra_env = dict(spec.get("env", {}))
+    if spec.get("hyp"):
+        # Hypothesis check: python3-vt script (+ runner executables built from the tree, handed over through the environment)
+        exe = ["python3-vt", os.path.join(VERIF, "py", spec["hyp"])]
+        for var, b in spec.get("runners", {}).items():
+            extra_env[var] = do_build(b)
+    else:
+        exe = build_harness(spec["harness"], spec.get("extra_sources", ()), defines=spec.get("defines", ()))
     findings = known_findings(prop)
     excl = [e["exclude"] for e in findings if e.get("status") == "known" and e.get("exclude")]
     if excl:
